@@ -21,7 +21,16 @@
                          Ok without inserting a subscription whose flag is raised.  In the
                          model the flag is [s_deleted] (set when the actor dequeues the Delete
                          and enters [SDel]);
-   [guard cfg = false] : the code before that commit. *)
+   [guard cfg = false] : the code before that commit.
+
+   Ghost state for the publish-order property (C08): [t_seq] counts the Publish requests a
+   topic has dequeued (the moment the code assigns the message ids), [TPub] carries the
+   sequence number of the Publish being handled, a PostMessages in a mailbox carries the
+   topic and the sequence number of its Publish, and [s_log] lists the sequence numbers of
+   the posts a subscription actor has appended to its backlog (posts drained during a
+   deletion are ignored by the code and are not logged).  The ghost state influences no
+   step.  [XState]/[xstep] at the end: the variant in which the topic actor does not wait
+   for its post tasks, used only by the refutation C08_refuted_without_await. *)
 
 From Coq Require Import List NArith Arith Bool Lia.
 Import ListNotations.
@@ -53,16 +62,17 @@ Inductive tmsg :=
 Inductive smsg :=
 | SGeneric (c : nat)
 | SDeleteM (c : nat)
-| SPost.                    (* PostMessages: no replier *)
+| SPost (t n : nat).        (* PostMessages of Publish number n of topic t: no replier *)
 
 (* ------------------------------------------------------------------ *)
 (* Actors and tasks                                                     *)
 
 Inductive tphase :=
 | TIdle
-| TPub (pending : list nat) (c : nat) (ok : bool).
+| TPub (pending : list nat) (c : nat) (ok : bool) (n : nat).
   (* handling Publish: post tasks still waiting to send (target sub ids),
-     the publisher to answer, whether every post so far succeeded *)
+     the publisher to answer, whether every post so far succeeded, and (ghost) the
+     sequence number of this Publish *)
 
 Inductive dphase := WaitRoom | WaitReply | Replied.
 
@@ -75,10 +85,12 @@ Inductive sphase :=
 | SExited.                  (* deleted signal fired, task gone, mailbox closed *)
 
 Record topic := { t_mbox : list tmsg; t_phase : tphase;
-                  t_atts : list nat; t_alive : bool }.
+                  t_atts : list nat; t_alive : bool;
+                  t_seq : nat (* ghost: Publish requests dequeued so far *) }.
 
 Record sub := { s_mbox : list smsg; s_phase : sphase; s_deleted : bool;
-                s_topic : nat; s_exists : bool (* present in the manager *) }.
+                s_topic : nat; s_exists : bool (* present in the manager *);
+                s_log : list nat (* ghost: sequence numbers of the posts handled *) }.
 
 Inductive cpc :=
 | CSendT (t : nat) (k : tkind)   (* in send().await on topic t            *)
@@ -157,7 +169,7 @@ Definition reply_all (ok : bool) (cs : list nat) (cl : list cpc) : list cpc :=
   fold_right (reply ok) cl cs.
 
 Definition smsg_repl (m : smsg) : list nat :=
-  match m with SGeneric c | SDeleteM c => [c] | SPost => [] end.
+  match m with SGeneric c | SDeleteM c => [c] | SPost _ _ => [] end.
 
 Definition tmsg_repl (m : tmsg) : list nat :=
   match m with TPublish c | TGeneric c | TDelete c => [c] | _ => [] end.
@@ -169,10 +181,11 @@ Definition topic_alive (st : state) (t : nat) : bool :=
   match nth_error (topics st) t with Some tp => t_alive tp | None => false end.
 
 Definition new_topic : topic :=
-  {| t_mbox := []; t_phase := TIdle; t_atts := []; t_alive := true |}.
+  {| t_mbox := []; t_phase := TIdle; t_atts := []; t_alive := true; t_seq := 0 |}.
 
 Definition new_sub (t : nat) : sub :=
-  {| s_mbox := []; s_phase := SIdle; s_deleted := false; s_topic := t; s_exists := true |}.
+  {| s_mbox := []; s_phase := SIdle; s_deleted := false; s_topic := t; s_exists := true;
+     s_log := [] |}.
 
 (* ------------------------------------------------------------------ *)
 (* The step function, one definition per kind of label                  *)
@@ -218,7 +231,7 @@ Definition step_csend (cfg : config) (st : state) (c : nat) : option state :=
           if length (t_mbox tp) <? K cfg then
             Some {| topics := set t {| t_mbox := t_mbox tp ++ [mk_tmsg k c];
                                        t_phase := t_phase tp; t_atts := t_atts tp;
-                                       t_alive := t_alive tp |} (topics st);
+                                       t_alive := t_alive tp; t_seq := t_seq tp |} (topics st);
                     subs := subs st;
                     clients := set c CAwait (clients st); helpers := helpers st |}
           else None
@@ -234,7 +247,8 @@ Definition step_csend (cfg : config) (st : state) (c : nat) : option state :=
               Some {| topics := topics st;
                       subs := set s {| s_mbox := s_mbox sb ++ [mk_smsg k c];
                                        s_phase := s_phase sb; s_deleted := s_deleted sb;
-                                       s_topic := s_topic sb; s_exists := s_exists sb |} (subs st);
+                                       s_topic := s_topic sb; s_exists := s_exists sb;
+                                       s_log := s_log sb |} (subs st);
                       clients := set c CAwait (clients st); helpers := helpers st |}
             else None
           else  (* closed mailbox: send fails at once *)
@@ -260,7 +274,7 @@ Definition step_hsend (cfg : config) (st : state) (h : nat) : option state :=
                 Some {| topics := set (h_topic hp)
                                       {| t_mbox := t_mbox tp ++ [TAttach (h_sub hp) h];
                                          t_phase := t_phase tp; t_atts := t_atts tp;
-                                         t_alive := t_alive tp |} (topics st);
+                                         t_alive := t_alive tp; t_seq := t_seq tp |} (topics st);
                         subs := subs st; clients := clients st;
                         helpers := set h {| h_sub := h_sub hp; h_topic := h_topic hp;
                                             h_caller := h_caller hp; h_pc := HAwaiting |} (helpers st) |}
@@ -290,7 +304,7 @@ Definition answer_remove (s : nat) (ss : list sub) : list sub :=
       | SDel WaitReply stash =>
           set s {| s_mbox := s_mbox sb; s_phase := SDel Replied stash;
                    s_deleted := s_deleted sb; s_topic := s_topic sb;
-                   s_exists := s_exists sb |} ss
+                   s_exists := s_exists sb; s_log := s_log sb |} ss
       | _ => ss
       end
   | None => ss
@@ -312,17 +326,22 @@ Definition step_tdeq (cfg : config) (st : state) (t : nat) : option state :=
           match t_mbox tp with
           | [] => None
           | TPublish c :: rest =>
-              Some {| topics := set t {| t_mbox := rest; t_phase := TPub (t_atts tp) c true;
-                                         t_atts := t_atts tp; t_alive := t_alive tp |} (topics st);
+              (* the ids are assigned here: this Publish gets sequence number t_seq *)
+              Some {| topics := set t {| t_mbox := rest;
+                                         t_phase := TPub (t_atts tp) c true (t_seq tp);
+                                         t_atts := t_atts tp; t_alive := t_alive tp;
+                                         t_seq := S (t_seq tp) |} (topics st);
                       subs := subs st; clients := clients st; helpers := helpers st |}
           | TGeneric c :: rest =>
               Some {| topics := set t {| t_mbox := rest; t_phase := TIdle;
-                                         t_atts := t_atts tp; t_alive := t_alive tp |} (topics st);
+                                         t_atts := t_atts tp; t_alive := t_alive tp;
+                                         t_seq := t_seq tp |} (topics st);
                       subs := subs st; clients := reply true c (clients st);
                       helpers := helpers st |}
           | TDelete c :: rest =>
               Some {| topics := set t {| t_mbox := rest; t_phase := TIdle;
-                                         t_atts := []; t_alive := false |} (topics st);
+                                         t_atts := []; t_alive := false;
+                                         t_seq := t_seq tp |} (topics st);
                       subs := subs st; clients := reply true c (clients st);
                       helpers := helpers st |}
           | TAttach s h :: rest =>
@@ -330,18 +349,18 @@ Definition step_tdeq (cfg : config) (st : state) (t : nat) : option state :=
                                          t_atts := if attach_blocked cfg st s then t_atts tp
                                                    else if mem s (t_atts tp) then t_atts tp
                                                    else s :: t_atts tp;
-                                         t_alive := t_alive tp |} (topics st);
+                                         t_alive := t_alive tp; t_seq := t_seq tp |} (topics st);
                       subs := subs st;
                       clients := reply_all true (helper_caller h (helpers st)) (clients st);
                       helpers := finish_helper h (helpers st) |}
           | TRemove s :: rest =>
               Some {| topics := set t {| t_mbox := rest; t_phase := TIdle;
                                          t_atts := remove_all s (t_atts tp);
-                                         t_alive := t_alive tp |} (topics st);
+                                         t_alive := t_alive tp; t_seq := t_seq tp |} (topics st);
                       subs := answer_remove s (subs st);
                       clients := clients st; helpers := helpers st |}
           end
-      | TPub _ _ _ => None   (* busy: does not dequeue *)
+      | TPub _ _ _ _ => None   (* busy: does not dequeue *)
       end
   | None => None
   end.
@@ -350,32 +369,36 @@ Definition step_post (cfg : config) (st : state) (t s : nat) : option state :=
   match nth_error (topics st) t with
   | Some tp =>
       match t_phase tp with
-      | TPub pend c ok =>
+      | TPub pend c ok n =>
           if mem s pend then
             match nth_error (subs st) s with
             | Some sb =>
                 if sub_open sb then
                   if length (s_mbox sb) <? K cfg then
                     Some {| topics := set t {| t_mbox := t_mbox tp;
-                                               t_phase := TPub (remove1 s pend) c ok;
-                                               t_atts := t_atts tp; t_alive := t_alive tp |}
+                                               t_phase := TPub (remove1 s pend) c ok n;
+                                               t_atts := t_atts tp; t_alive := t_alive tp;
+                                               t_seq := t_seq tp |}
                                           (topics st);
-                            subs := set s {| s_mbox := s_mbox sb ++ [SPost];
+                            subs := set s {| s_mbox := s_mbox sb ++ [SPost t n];
                                              s_phase := s_phase sb; s_deleted := s_deleted sb;
-                                             s_topic := s_topic sb; s_exists := s_exists sb |}
+                                             s_topic := s_topic sb; s_exists := s_exists sb;
+                                             s_log := s_log sb |}
                                         (subs st);
                             clients := clients st; helpers := helpers st |}
                   else None
                 else
                   Some {| topics := set t {| t_mbox := t_mbox tp;
-                                             t_phase := TPub (remove1 s pend) c false;
-                                             t_atts := t_atts tp; t_alive := t_alive tp |}
+                                             t_phase := TPub (remove1 s pend) c false n;
+                                             t_atts := t_atts tp; t_alive := t_alive tp;
+                                             t_seq := t_seq tp |}
                                         (topics st);
                           subs := subs st; clients := clients st; helpers := helpers st |}
             | None =>
                 Some {| topics := set t {| t_mbox := t_mbox tp;
-                                           t_phase := TPub (remove1 s pend) c false;
-                                           t_atts := t_atts tp; t_alive := t_alive tp |}
+                                           t_phase := TPub (remove1 s pend) c false n;
+                                           t_atts := t_atts tp; t_alive := t_alive tp;
+                                           t_seq := t_seq tp |}
                                       (topics st);
                         subs := subs st; clients := clients st; helpers := helpers st |}
             end
@@ -389,9 +412,10 @@ Definition step_tfinish (st : state) (t : nat) : option state :=
   match nth_error (topics st) t with
   | Some tp =>
       match t_phase tp with
-      | TPub [] c ok =>
+      | TPub [] c ok _ =>
           Some {| topics := set t {| t_mbox := t_mbox tp; t_phase := TIdle;
-                                     t_atts := t_atts tp; t_alive := t_alive tp |} (topics st);
+                                     t_atts := t_atts tp; t_alive := t_alive tp;
+                                     t_seq := t_seq tp |} (topics st);
                   subs := subs st; clients := reply ok c (clients st);
                   helpers := helpers st |}
       | _ => None
@@ -412,13 +436,14 @@ Definition step_sdeq (cfg : config) (st : state) (s : nat) : option state :=
                   Some {| topics := topics st;
                           subs := set s {| s_mbox := rest; s_phase := SIdle;
                                            s_deleted := s_deleted sb; s_topic := s_topic sb;
-                                           s_exists := s_exists sb |} (subs st);
+                                           s_exists := s_exists sb; s_log := s_log sb |} (subs st);
                           clients := reply true c (clients st); helpers := helpers st |}
-              | SPost =>
+              | SPost _ n =>   (* appended to the backlog: logged *)
                   Some {| topics := topics st;
                           subs := set s {| s_mbox := rest; s_phase := SIdle;
                                            s_deleted := s_deleted sb; s_topic := s_topic sb;
-                                           s_exists := s_exists sb |} (subs st);
+                                           s_exists := s_exists sb;
+                                           s_log := s_log sb ++ [n] |} (subs st);
                           clients := clients st; helpers := helpers st |}
               | SDeleteM c =>
                   Some {| topics := topics st;
@@ -426,7 +451,7 @@ Definition step_sdeq (cfg : config) (st : state) (s : nat) : option state :=
                                            s_phase := SDel (if topic_alive st (s_topic sb)
                                                             then WaitRoom else Replied) [c];
                                            s_deleted := true; s_topic := s_topic sb;
-                                           s_exists := s_exists sb |} (subs st);
+                                           s_exists := s_exists sb; s_log := s_log sb |} (subs st);
                           clients := clients st; helpers := helpers st |}
               end
           | SDel d stash =>
@@ -436,19 +461,22 @@ Definition step_sdeq (cfg : config) (st : state) (s : nat) : option state :=
                     Some {| topics := topics st;
                             subs := set s {| s_mbox := rest; s_phase := SDel d stash;
                                              s_deleted := s_deleted sb; s_topic := s_topic sb;
-                                             s_exists := s_exists sb |} (subs st);
+                                             s_exists := s_exists sb;
+                                             s_log := s_log sb |} (subs st);
                             clients := reply true c (clients st); helpers := helpers st |}
-                | SPost =>
+                | SPost _ _ =>   (* ignored by a deleted subscription: not logged *)
                     Some {| topics := topics st;
                             subs := set s {| s_mbox := rest; s_phase := SDel d stash;
                                              s_deleted := s_deleted sb; s_topic := s_topic sb;
-                                             s_exists := s_exists sb |} (subs st);
+                                             s_exists := s_exists sb;
+                                             s_log := s_log sb |} (subs st);
                             clients := clients st; helpers := helpers st |}
                 | SDeleteM c =>
                     Some {| topics := topics st;
                             subs := set s {| s_mbox := rest; s_phase := SDel d (stash ++ [c]);
                                              s_deleted := s_deleted sb; s_topic := s_topic sb;
-                                             s_exists := s_exists sb |} (subs st);
+                                             s_exists := s_exists sb;
+                                             s_log := s_log sb |} (subs st);
                             clients := clients st; helpers := helpers st |}
                 end
               else None
@@ -468,17 +496,17 @@ Definition step_ssend (cfg : config) (st : state) (s : nat) : option state :=
               Some {| topics := topics st;
                       subs := set s {| s_mbox := s_mbox sb; s_phase := SDel Replied stash;
                                        s_deleted := s_deleted sb; s_topic := s_topic sb;
-                                       s_exists := s_exists sb |} (subs st);
+                                       s_exists := s_exists sb; s_log := s_log sb |} (subs st);
                       clients := clients st; helpers := helpers st |}
           | Some tp =>
               if length (t_mbox tp) <? K cfg then
                 Some {| topics := set (s_topic sb)
                                       {| t_mbox := t_mbox tp ++ [TRemove s];
                                          t_phase := t_phase tp; t_atts := t_atts tp;
-                                         t_alive := t_alive tp |} (topics st);
+                                         t_alive := t_alive tp; t_seq := t_seq tp |} (topics st);
                         subs := set s {| s_mbox := s_mbox sb; s_phase := SDel WaitReply stash;
                                          s_deleted := s_deleted sb; s_topic := s_topic sb;
-                                         s_exists := s_exists sb |} (subs st);
+                                         s_exists := s_exists sb; s_log := s_log sb |} (subs st);
                         clients := clients st; helpers := helpers st |}
               else None
           end
@@ -495,7 +523,7 @@ Definition step_sfinish (st : state) (s : nat) : option state :=
           Some {| topics := topics st;
                   subs := set s {| s_mbox := []; s_phase := SExited;
                                    s_deleted := s_deleted sb; s_topic := s_topic sb;
-                                   s_exists := false |} (subs st);
+                                   s_exists := false; s_log := s_log sb |} (subs st);
                   clients := reply_all false (flat_map smsg_repl (s_mbox sb))
                                (reply_all true stash (clients st));
                   helpers := helpers st |}
@@ -589,7 +617,7 @@ Definition w_tmsg (N : nat) (m : tmsg) : nat :=
   match m with TPublish _ => 2 * N + 2 | _ => 1 end.
 
 Definition w_tphase (p : tphase) : nat :=
-  match p with TIdle => 0 | TPub pend _ _ => 2 * length pend + 1 end.
+  match p with TIdle => 0 | TPub pend _ _ _ => 2 * length pend + 1 end.
 
 Definition w_topic (N : nat) (tp : topic) : nat :=
   sum (map (w_tmsg N) (t_mbox tp)) + w_tphase (t_phase tp).
@@ -617,3 +645,104 @@ Definition measure (st : state) : nat :=
   let N := length (subs st) in
   sum (map (w_topic N) (topics st)) + sum (map w_sub (subs st)) +
   sum (map (w_client N) (clients st)) + sum (map w_helper (helpers st)).
+
+(* ------------------------------------------------------------------ *)
+(* C08: what a subscription has been given so far, in order: the sequence numbers of the
+   posts it has handled followed by those still queued in its mailbox *)
+
+Definition post_seq (m : smsg) : list nat :=
+  match m with SPost _ n => [n] | _ => [] end.
+
+Definition queued_posts (mb : list smsg) : list nat := flat_map post_seq mb.
+
+Definition delivered (sb : sub) : list nat := s_log sb ++ queued_posts (s_mbox sb).
+
+(* ------------------------------------------------------------------ *)
+(* The variant refuted by C08_refuted_without_await: a topic actor that does NOT wait for
+   its post tasks.  On dequeuing a Publish it assigns the sequence number, answers the
+   publisher at once and goes back to idle; the post tasks float freely (a list of
+   (topic, subscription, sequence number)) and each one sends whenever it is scheduled.
+   Every other label behaves as in [step].  Used only by that refutation. *)
+
+Record xstate := { x_base : state; x_posts : list (nat * nat * nat) }.
+
+Inductive xlabel :=
+| XL (l : label)        (* a step of the base system *)
+| XPost (i : nat).      (* the i-th floating post task sends (or fails) *)
+
+Fixpoint remove_nth {A} (i : nat) (l : list A) : list A :=
+  match l with
+  | [] => []
+  | y :: r => match i with 0 => r | S j => y :: remove_nth j r end
+  end.
+
+Definition xinit : xstate := {| x_base := init; x_posts := [] |}.
+
+Definition xstep_publish (xs : xstate) (t : nat) : option xstate :=
+  let st := x_base xs in
+  match nth_error (topics st) t with
+  | Some tp =>
+      match t_phase tp, t_mbox tp with
+      | TIdle, TPublish c :: rest =>
+          Some {| x_base :=
+                    {| topics := set t {| t_mbox := rest; t_phase := TIdle;
+                                          t_atts := t_atts tp; t_alive := t_alive tp;
+                                          t_seq := S (t_seq tp) |} (topics st);
+                       subs := subs st; clients := reply true c (clients st);
+                       helpers := helpers st |};
+                  x_posts := x_posts xs ++ map (fun s => (t, s, t_seq tp)) (t_atts tp) |}
+      | _, _ => None
+      end
+  | None => None
+  end.
+
+Definition xstep_post (cfg : config) (xs : xstate) (i : nat) : option xstate :=
+  let st := x_base xs in
+  match nth_error (x_posts xs) i with
+  | Some (t, s, n) =>
+      match nth_error (subs st) s with
+      | Some sb =>
+          if sub_open sb then
+            if length (s_mbox sb) <? K cfg then
+              Some {| x_base :=
+                        {| topics := topics st;
+                           subs := set s {| s_mbox := s_mbox sb ++ [SPost t n];
+                                            s_phase := s_phase sb; s_deleted := s_deleted sb;
+                                            s_topic := s_topic sb; s_exists := s_exists sb;
+                                            s_log := s_log sb |} (subs st);
+                           clients := clients st; helpers := helpers st |};
+                      x_posts := remove_nth i (x_posts xs) |}
+            else None
+          else Some {| x_base := st; x_posts := remove_nth i (x_posts xs) |}
+      | None => Some {| x_base := st; x_posts := remove_nth i (x_posts xs) |}
+      end
+  | None => None
+  end.
+
+Definition xlift (xs : xstate) (o : option state) : option xstate :=
+  match o with
+  | Some st' => Some {| x_base := st'; x_posts := x_posts xs |}
+  | None => None
+  end.
+
+Definition xstep (cfg : config) (xs : xstate) (xl : xlabel) : option xstate :=
+  match xl with
+  | XL (LTDeq t) =>
+      match xstep_publish xs t with
+      | Some xs' => Some xs'
+      | None => xlift xs (step cfg (x_base xs) (LTDeq t))
+      end
+  | XL l => xlift xs (step cfg (x_base xs) l)
+  | XPost i => xstep_post cfg xs i
+  end.
+
+Inductive xreachable (cfg : config) : xstate -> Prop :=
+| xreach_init : xreachable cfg xinit
+| xreach_step : forall xs xl xs',
+    xreachable cfg xs -> xstep cfg xs xl = Some xs' -> xreachable cfg xs'.
+
+Fixpoint xrun (cfg : config) (xs : xstate) (ls : list xlabel) : option xstate :=
+  match ls with
+  | [] => Some xs
+  | l :: r => match xstep cfg xs l with Some xs' => xrun cfg xs' r | None => None end
+  end.
